@@ -1,5 +1,7 @@
 SPECIFICATION Spec
-CONSTANT Prop = "C16"
+CONSTANTS
+  Prop = "C16"
+  Chunk = 250
 INVARIANT RecordOK
 POSTCONDITION TraceAccepted
 CHECK_DEADLOCK FALSE
